@@ -440,7 +440,11 @@ def rf_close(a, b, tol):
     """a == b up to rounding of literals: every coefficient of the reduced difference is <= tol times the largest coefficient of
     the operands (polynomial case only).  Used where the code folds products of decimal literals in IEEE arithmetic at compile time."""
     if a.d is not None or b.d is not None:
-        return False
+        # rational functions: compare the cross-multiplied numerators
+        one = a.n.ctx.const_lp(1)
+        ad = a.d if a.d is not None else one
+        bd = b.d if b.d is not None else one
+        return rf_close(RF(a.n * bd), RF(b.n * ad), tol)
     d = (a.n - b.n)
     ctx = d.ctx
     if any(d.min_exp(i) < 0 for i in ctx.rel):
@@ -472,8 +476,48 @@ def _lin_key(rf):
     return c0, key, prim
 
 
+def _set_units(ctx, pending):
+    for key, (prim, cs) in pending.items():
+        if key in ctx.trig or key in ctx.trig_units:
+            continue
+        num = 0
+        den = 1
+        for c in cs:
+            den = den * c.denominator // gcd(den, c.denominator)
+        for c in cs:
+            num = gcd(num, int(c * den))
+        ctx.trig_units[key] = Fraction(num, den) / getattr(ctx, "trig_unit_div", 1)
+
+
 def prepare_trig(ctx, roots, extra_rf=()):
     """Pre-pass: choose for every trig base angle the unit c0 such that all occurring multiples are integers."""
+    # nesting depth of trig calls (a trig call whose argument contains trig calls, e.g. exp(log(exp(a) * g)))
+    depth = {}
+    calls = []
+    for n in dag.topo(roots):
+        d = 0
+        for a_ in n.args:
+            if isinstance(a_, Node):
+                d = max(d, depth[a_.id])
+        if n.op == "call" and n.args[0] in ("sin", "cos", "tan"):
+            d += 1
+            calls.append(n)
+        depth[n.id] = d
+    if calls and max(depth[n.id] for n in calls) > 1:
+        # nested: resolve the units level by level with REAL evaluation of the arguments (inner units are known by then)
+        for lvl in sorted(set(depth[n.id] for n in calls)):
+            pend = {}
+            for n in calls:
+                if depth[n.id] != lvl:
+                    continue
+                a = to_rf(ctx, n.args[1])
+                lk = _lin_key(a)
+                if lk is None:
+                    continue
+                c, key, prim = lk
+                pend.setdefault(key, (prim, []))[1].append(abs(c))
+            _set_units(ctx, pend)
+        return
     pending = {}
     for n in dag.topo(roots):
         if n.op == "call" and n.args[0] in ("sin", "cos", "tan"):
@@ -681,7 +725,7 @@ def _call_rf(ctx, x, memo, pending):
             return ("p", _poly_key(r.n)) if r.d is None else ("q", _poly_key(r.n), _poly_key(r.d))
         # atan2(0, x) for x > 0
         if y.n.is_zero_mod():
-            xc = xx.n.reduce(full=True).const_value() if xx.d is None else None
+            xc = xx.n.reduce(full=True).const_value() if xx.d is None else (1 if (xx.n - xx.d).is_zero_mod() else None)
             if xc is not None and xc > 0:
                 ctx.assumptions.append("atan2(0, x) = 0 for x > 0")
                 return RF(ctx.const_lp(0))
@@ -736,6 +780,18 @@ def _call_rf(ctx, x, memo, pending):
                     if info["E"] == v:
                         ctx.assumptions.append("log(exp x) = x")
                         return RF(info["base"].scale(info["c0"] * a.n.max_exp(v)))
+        # log(1) = 0, also when 1 appears as an unreduced quotient N/N
+        if (a.d is None and a.n.reduce(full=True).const_value() == 1) or (a.d is not None and (a.n - a.d).is_zero_mod()):
+            ctx.assumptions.append("log(1) = 0")
+            return RF(ctx.const_lp(0))
+        if a.d is not None:
+            # log(E^k * D / D) for an exp atom E
+            for info in ctx.expo.values():
+                for k_ in (1, 2, -1, -2):
+                    Ek = ctx.var_lp(info["E"], k_)
+                    if (a.n - Ek * a.d).is_zero_mod():
+                        ctx.assumptions.append("log(exp x) = x")
+                        return RF(info["base"].scale(info["c0"] * k_))
         i = ctx.atom(("node", x.id), "log%d" % x.id)
         ctx.logs = getattr(ctx, "logs", {})
         ctx.logs[i] = a
@@ -761,6 +817,11 @@ def sqrt_rf(ctx, a, node):
     if a.d is not None:
         if (a.n - a.d).is_zero_mod():
             return RF(ctx.const_lp(1))
+        # sqrt(E^(2k) D / D) = E^k for an exp atom E > 0
+        for info in getattr(ctx, "expo", {}).values():
+            for k_ in (1, -1, 2, -2):
+                if (a.n - ctx.var_lp(info["E"], 2 * k_) * a.d).is_zero_mod():
+                    return RF(ctx.var_lp(info["E"], k_))
         # sqrt(N/D) = sqrt(N*D)/D  for D > 0 is not assumed; keep opaque
         i = ctx.atom(("node", id(a) if node is None else node.id), "sqrt%d" % len(ctx.names))
         ctx.sqrt_args[i] = a
